@@ -675,3 +675,124 @@ def bounded_access_order(tier, seed):
 
 BOUNDED = {"C14.access_order": bounded_access_order}
 PROPERTY_INFO = {"C09": {"bounded": ["C14.access_order"]}, "C14": {"bounded": ["C14.access_order"]}, "C20": {"bounded": ["C14.access_order"]}}
+
+
+# ---- copy / pickle: __getattr__ on an instance whose __dict__ is still empty (C20) ---------------------
+# copy.copy / copy.deepcopy / pickle create the instance without __init__ and then look up
+# __setstate__ / __deepcopy__ / __reduce_ex__ on it (assumed protocol contract, CPython 3.12).  Instance
+# attribute lookup that misses calls __getattr__, which reads self._cache - itself missing - and so
+# re-enters __getattr__('_cache') in the same state: no decreasing measure.
+
+
+def _bare_setup(name):
+    def setup(eng, st, fid, genv):
+        from pyvc.heap import ObjV
+
+        ref = eng.alloc(st, ObjV("SpectrumResult", {}))
+        st.tags["self_loc"] = ref.loc
+        st.tags["bare_instance"] = True
+        st.tags["attr_name"] = name
+        eng.setvar(st, fid, "self", ref)
+        eng.setvar(st, fid, "name", name)
+
+    return setup
+
+
+for _nm in ("_cache", "_data", "__setstate__", "__deepcopy__"):
+    UNITS.append(
+        Unit(
+            id=f"analysis.SpectrumResult.__getattr__[bare-instance,{_nm}]",
+            module=M,
+            func=F,
+            props=["C20"],
+            setup=_bare_setup(_nm),
+            ensures={"C20.lookup_on_bare_instance_raises_AttributeError": "False"},
+            raises={"AttributeError": True},
+            opts={"callee": False, "may_not_return": True},
+        )
+    )
+
+_install_ar = install
+
+
+def install(eng):  # noqa: F811
+    _install_ar(eng)
+    from pyvc.heap import Ref, ObjV, DictV
+
+    prev = eng.getattr_hook
+
+    def getattr_hook(eng_, st, base, attr):
+        if isinstance(base, Ref) and isinstance(st.heap.get(base.loc), ObjV) and st.tags.get("bare_instance") and base.loc == st.tags.get("self_loc"):
+            o = st.heap[base.loc]
+            if attr not in o.fields:
+                # Python: a missing instance attribute calls __getattr__(attr); inside __getattr__ that is a
+                # recursive self-call in an unchanged state
+                eng_.oblige(st, "variant", f"C20.recursive_getattr_terminates[{attr}]", False)
+                return [(st, eng_.alloc(st, DictV({})))]
+        return prev(eng_, st, base, attr)
+
+    eng.getattr_hook = getattr_hook
+
+
+def bounded_exports(tier, seed):
+    """C20 stand-in (bounded): get_measurement (tabulated / linear / clamped), to_dataframe for full, single-bin and
+    uniform-K results, copy / deepcopy / pickle round trips"""
+    import copy
+    import pickle
+    import numpy as np
+    from speckit import SpectrumAnalyzer
+
+    rng = np.random.default_rng(seed)
+    fails, n = [], 0
+    N = 1200
+    x = rng.normal(size=N)
+    y = 0.5 * x + rng.normal(size=N)
+    results = {}
+    for tag, data in (("auto", x), ("cross", [x, y])):
+        an = SpectrumAnalyzer(data, 10.0, olap=0.5, Jdes=15, Kdes=8, scheduler="ltf", win="hann")
+        results[f"{tag}/full"] = an.compute()
+        results[f"{tag}/single-bin"] = an.compute_single_bin(1.0, L=200)
+        results[f"{tag}/uniform-K"] = SpectrumAnalyzer(data, 10.0, olap=0.5, Jdes=5, Kdes=2, Lmin=N, scheduler="ltf", win="hann").compute()
+    for tag, res in results.items():
+        cross = tag.startswith("cross")
+        which = "Gxy" if cross else "asd"
+        v = np.asarray(getattr(res, which))
+        n += 1
+        ok = True
+        for j in range(len(res.f)):
+            if abs(res.get_measurement(float(res.f[j]), which) - v[j]) > 1e-12 * max(1, abs(v[j])):
+                ok = False
+        if len(res.f) >= 2:
+            fm = 0.5 * (res.f[0] + res.f[1])
+            ok = ok and abs(res.get_measurement(float(fm), which) - 0.5 * (v[0] + v[1])) < 1e-9 * max(1, abs(v[0]))
+        ok = ok and abs(res.get_measurement(float(res.f[0]) - 1.0, which) - v[0]) < 1e-12 * max(1, abs(v[0])) and abs(res.get_measurement(float(res.f[-1]) + 1.0, which) - v[-1]) < 1e-12 * max(1, abs(v[-1]))
+        if not ok:
+            fails.append({"label": "C20.get_measurement", "input": {"result": tag}, "detail": "interpolation is not tabulated-at-grid / linear / clamped"})
+        n += 1
+        try:
+            df = res.to_dataframe()
+            if len(df) != len(res.f) or not np.allclose(df.index.values, res.f) or ("Gxx" not in df.columns):
+                fails.append({"label": "C20.to_dataframe", "input": {"result": tag}, "detail": "DataFrame does not contain the per-bin arrays indexed by frequency"})
+            for col in df.columns:
+                a = getattr(res, col)
+                if isinstance(a, np.ndarray) and a.ndim == 1 and a.dtype != object and not np.array_equal(np.asarray(df[col]), a, equal_nan=True):
+                    fails.append({"label": "C20.to_dataframe", "input": {"result": tag, "column": col}, "detail": "column differs from the attribute"})
+                    break
+        except Exception as e:
+            fails.append({"label": "C20.to_dataframe", "input": {"result": tag}, "detail": "to_dataframe raised " + repr(e)[:120], "known_id": "D4-to_dataframe-2d-D"})
+        for op, fn in (("copy", copy.copy), ("deepcopy", copy.deepcopy), ("pickle", lambda r: pickle.loads(pickle.dumps(r)))):
+            n += 1
+            try:
+                r2 = fn(res)
+                if not (np.array_equal(r2.f, res.f) and np.array_equal(np.asarray(r2.Gxx), np.asarray(res.Gxx)) and r2.iscsd == res.iscsd):
+                    fails.append({"label": "C20.copy_pickle", "input": {"result": tag, "op": op}, "detail": "values differ after " + op})
+            except RecursionError:
+                fails.append({"label": "C20.copy_pickle", "input": {"result": tag, "op": op}, "detail": op + " raised RecursionError", "known_id": "D3-copy-pickle-recursion"})
+            except Exception as e:
+                fails.append({"label": "C20.copy_pickle", "input": {"result": tag, "op": op}, "detail": op + " raised " + repr(e)[:100]})
+    return {"evaluations": n, "bound": "auto/cross x full/single-bin/uniform-K results", "failures": fails[:8], "n_failures": len(fails)}
+
+
+BOUNDED["C20.exports"] = bounded_exports
+PROPERTY_INFO["C20"]["bounded"] = ["C14.access_order", "C20.exports"]
+PROPERTY_INFO["C20"]["not_decided"] = ["get_measurement / to_dataframe / copy / pickle: pandas, np.interp and the copy protocol are outside the interpreted subset; bounded run-time checks (the recursion of __getattr__ on a bare instance is proved separately)"]
